@@ -290,7 +290,9 @@ func unmarshalFeature(entity api.EntityRemoteInterface,
 
 	fid := featureData.Description
 
-	if fid == nil {
+	if fid == nil ||
+		fid.FeatureAddress == nil || fid.FeatureAddress.Feature == nil ||
+		fid.FeatureType == nil || fid.Role == nil {
 		return nil, false
 	}
 
